@@ -72,8 +72,8 @@ theorem Inv.lockStep {s : State} (hI : Inv s) {a : Actor} {f : Nat} {p : Pc} (hf
     · inv_simp; grind [updA]
   case placed => inv_auto
   case freshHolder => inv_auto
-  case scanL0 => inv_auto
-  case unlockL0 => inv_auto
+  case scanL0 => unfold ScanL0 at *; inv_auto
+  case unlockL0 => unfold ScanL0 UnlockL0 at *; inv_auto
   case oScanOk => inv_auto
   case oNoneOk => inv_auto
   case aUnlockOk => inv_auto
@@ -153,8 +153,8 @@ theorem Inv.unlockStep {s : State} (hI : Inv s) {a : Actor} {f : Nat} {p : Pc}
     · inv_simp; grind [updA]
   case placed => inv_auto
   case freshHolder => inv_auto
-  case scanL0 => inv_auto
-  case unlockL0 => inv_auto
+  case scanL0 => unfold ScanL0 at *; inv_auto
+  case unlockL0 => unfold ScanL0 UnlockL0 at *; inv_auto
   case oScanOk => inv_auto
   case oNoneOk => inv_auto
   case aUnlockOk => inv_auto
